@@ -664,3 +664,200 @@ func digitPlacement(lp *loopInfo, rem *ssa.BinOp) string {
 	}
 	return verdict
 }
+
+// byteAsRune lists calls of unicode predicates (or utf8 validity tests) on a single byte widened to a rune: for bytes at or
+// above 0x80 the byte is a fragment of a multi-byte character, not a code point (0x85 and 0xA0 are "spaces" in Latin-1, so a
+// continuation byte of à, Å or 内 would split a token). A call dominated by a test that the byte is below 0x80 is fine.
+func byteAsRune(fn *ssa.Function) []*ssa.Call {
+	var out []*ssa.Call
+	eachInstr(fn, func(b *ssa.BasicBlock, in ssa.Instruction) {
+		call, ok := in.(*ssa.Call)
+		if !ok {
+			return
+		}
+		f := calleeObj(&call.Call)
+		if f == nil || f.Pkg() == nil || f.Pkg().Path() != "unicode" || len(call.Call.Args) == 0 {
+			return
+		}
+		cv, ok := call.Call.Args[0].(*ssa.Convert)
+		if !ok {
+			return
+		}
+		bt, ok := cv.X.Type().Underlying().(*types.Basic)
+		if !ok || bt.Kind() != types.Uint8 {
+			return
+		}
+		// guarded by b < 0x80 (or b <= 0x7f, or its negation on the false edge)?
+		for _, fc := range factsAt(b) {
+			bo, ok := fc.Cond.(*ssa.BinOp)
+			if !ok {
+				continue
+			}
+			lim := func(v ssa.Value) (int64, bool) { return constInt(v) }
+			switch {
+			case bo.X == cv.X || bo.X == ssa.Value(cv):
+				if k, ok := lim(bo.Y); ok {
+					if (fc.True && ((bo.Op == token.LSS && k <= 0x80) || (bo.Op == token.LEQ && k < 0x80))) || (!fc.True && ((bo.Op == token.GEQ && k <= 0x80) || (bo.Op == token.GTR && k < 0x80))) {
+						return
+					}
+				}
+			case bo.Y == cv.X || bo.Y == ssa.Value(cv):
+				if k, ok := lim(bo.X); ok {
+					if (fc.True && ((bo.Op == token.GTR && k <= 0x80) || (bo.Op == token.GEQ && k < 0x80))) || (!fc.True && ((bo.Op == token.LEQ && k <= 0x80) || (bo.Op == token.LSS && k < 0x80))) {
+						return
+					}
+				}
+			}
+		}
+		out = append(out, call)
+	})
+	return out
+}
+
+// byteRuneRule applies byteAsRune to the given packages, with the stored positive control.
+func byteRuneRule(c *Ctx, p *Prog, R string, rels ...string) {
+	nF, n := 0, 0
+	for _, fn := range p.Funcs(rels...) {
+		nF++
+		for _, call := range byteAsRune(fn) {
+			n++
+			c.Bad(R, fmt.Sprintf("%s:byte-as-rune#%d", fnName(fn), n), p.pos(call.Pos()), "a single byte of the text is widened to a rune and classified with unicode."+calleeObj(&call.Call).Name()+": bytes at or above 0x80 are fragments of multi-byte characters, and the Latin-1 code points 0x85 and 0xA0 are spaces, so the continuation byte of à, Å or 内 splits a word while a real multi-byte space no longer does")
+		}
+	}
+	c.OK(R, "byte-as-rune:none", "", fmt.Sprintf("%d functions, no unicode predicate applied to a lone byte", nF))
+	ctl := mustLoad(c, loadOpts{dir: c.HomeDir + "/checker"}, "./testdata/lookbehind")
+	nCtl := 0
+	for _, fn := range ctl.Funcs("perfcheck/testdata/lookbehind") {
+		nCtl += len(byteAsRune(fn))
+	}
+	if nCtl != 1 {
+		c.Undecided(R, "positive-control", "", fmt.Sprintf("the byte-as-rune matcher finds %d instances in its control file, expected exactly 1 (one unguarded, one guarded)", nCtl))
+	} else {
+		c.OK(R, "positive-control", "checker/testdata/lookbehind/lb.go", "matcher fires on the unguarded stored example and not on the guarded one")
+	}
+}
+
+// spliceLoop: a loop that rewrites a string in place, piece by piece, at positions recorded beforehand.
+type spliceLoop struct {
+	Fn      *ssa.Function
+	Pos     token.Pos
+	Verdict string // "backwards", "shifted", "unshifted", "unknown"
+}
+
+// spliceLoops finds loops whose loop-carried string S becomes S[:a] + r + S[b:]. Positions recorded against the original
+// string stay valid only if the pieces are replaced from the last to the first, or if every position is corrected by the
+// accumulated change in length of the replacements made so far.
+func spliceLoops(fn *ssa.Function) []spliceLoop {
+	var out []spliceLoop
+	for _, lp := range naturalLoops(fn) {
+		for _, in := range lp.Header.Instrs {
+			phi, ok := in.(*ssa.Phi)
+			if !ok || !isString(phi.Type()) {
+				continue
+			}
+			// back-edge value: a concatenation containing slices of phi
+			var back ssa.Value
+			for i, e := range phi.Edges {
+				if lp.Blocks[lp.Header.Preds[i]] {
+					back = e
+				}
+			}
+			if back == nil {
+				continue
+			}
+			var head, tail *ssa.Slice
+			var walk func(v ssa.Value, d int)
+			walk = func(v ssa.Value, d int) {
+				if d > 6 {
+					return
+				}
+				switch x := v.(type) {
+				case *ssa.BinOp:
+					if x.Op == token.ADD {
+						walk(x.X, d+1)
+						walk(x.Y, d+1)
+					}
+				case *ssa.Slice:
+					if x.X == ssa.Value(phi) {
+						if x.Low == nil && x.High != nil {
+							head = x
+						}
+						if x.Low != nil && x.High == nil {
+							tail = x
+						}
+					}
+				}
+			}
+			walk(back, 0)
+			if head == nil || tail == nil {
+				continue
+			}
+			sl := spliceLoop{Fn: fn, Pos: head.Pos(), Verdict: "unknown"}
+			// direction of the loop's integer induction variable(s)
+			down, up := false, false
+			var accs []*ssa.Phi
+			for _, in2 := range lp.Header.Instrs {
+				ip, ok := in2.(*ssa.Phi)
+				if !ok || !isInteger(ip.Type()) {
+					continue
+				}
+				for i, e := range ip.Edges {
+					if !lp.Blocks[lp.Header.Preds[i]] {
+						continue
+					}
+					bo, ok := e.(*ssa.BinOp)
+					if !ok {
+						continue
+					}
+					if _, isK := bo.Y.(*ssa.Const); isK && bo.X == ssa.Value(ip) {
+						if bo.Op == token.SUB {
+							down = true
+						}
+						if bo.Op == token.ADD {
+							up = true
+						}
+						continue
+					}
+					// an accumulator: its next value depends on itself and on something else
+					if dependsOn(e, ip, 0) {
+						accs = append(accs, ip)
+					}
+				}
+			}
+			switch {
+			case down && !up:
+				sl.Verdict = "backwards"
+			case up && !down:
+				sl.Verdict = "unshifted"
+				for _, a := range accs {
+					if dependsOn(head.High, a, 0) {
+						sl.Verdict = "shifted"
+					}
+				}
+			}
+			out = append(out, sl)
+		}
+	}
+	return out
+}
+
+// dependsOn: v is computed (through arithmetic and conversions) from w.
+func dependsOn(v, w ssa.Value, d int) bool {
+	if v == w {
+		return true
+	}
+	if d > 8 {
+		return false
+	}
+	switch x := v.(type) {
+	case *ssa.BinOp:
+		return dependsOn(x.X, w, d+1) || dependsOn(x.Y, w, d+1)
+	case *ssa.Convert:
+		return dependsOn(x.X, w, d+1)
+	case *ssa.UnOp:
+		if x.Op == token.SUB {
+			return dependsOn(x.X, w, d+1)
+		}
+	}
+	return false
+}
